@@ -194,13 +194,34 @@ def run(facts, res):
                         if l.kind == "cmp" and l.term[1] == "Gt" and l.truth is True and contains_call(l.term[2], "get_leafs"):
                             guarded = True
             direct = any(l.kind == "cmp" and l.term[1] == "Gt" and l.truth is True and contains_call(l.term[2], "get_leafs") for l in lits_of(c, bi, facts))
+            # the list of (descriptor, winner) pairs may be produced by a private helper (`self.conflicting_array_descriptors()?`):
+            # the same two facts are then read inside the helper and its closures
+            from ..common import members_of
+            for hbk in fl.call_blocks(src):
+                hc = c.blocks[hbk].term.callee
+                hb = facts.body(hc.target()) if hc is not None else None
+                if hb is None or not hb.in_repo() or hb.public or hb.kind == "closure" or hb.impl_adt != c.impl_adt:
+                    continue
+                for m in members_of(facts, hb):
+                    mfl = flow_of(m)
+                    mgw = {b2 for b2, t2 in m.calls() if t2.callee is not None and t2.callee.target() == "revisiontree::RevisionTree::get_winner"}
+                    if mgw & mfl.call_blocks(mfl.local_sources(0)):
+                        from_winner = True
+                    mdu = du_of(m)
+                    for blk in m.blocks:
+                        for st in blk.stmts:
+                            if st.kind == "assign" and st.rv.kind == "binop" and st.rv.j["op"] in ("Gt", "Ge", "Lt", "Le"):
+                                tt = mdu.rvalue_term(st.rv, 12)
+                                if contains_call(tt, "len") and contains_call(tt, "get_leafs"):
+                                    guarded = True
             res.instance("Q3", "commit: resolve_as(uuid, chosen): chosen derives from get_winner(): %s (from leaves: %s); only for trees with > 1 leaf: %s" % (
                 from_winner, bool(other), guarded or direct), c.loc(t.line))
             if not from_winner or other:
                 res.violation("Q3", "commit|auto-resolve-not-winner", "commit's automatic resolution does not pass the tree's current winner as the chosen revision", c.loc(t.line))
             if not (guarded or direct):
                 res.violation("Q3", "commit|auto-resolve-unconditional", "commit auto-resolves trees that are not in conflict", c.loc(t.line))
-        ad = any(t.callee is not None and t.callee.name == "is_array_descriptor" for _, t in c.calls())
+        from ..common import members_of as _mo3
+        ad = any(t.callee is not None and t.callee.name == "is_array_descriptor" for m_ in _mo3(facts, c) for _, t in m_.calls())
         res.instance("Q3", "commit restricts auto-resolution to array descriptors: %s" % ad, c.loc())
         if not ad:
             res.violation("Q3", "commit|auto-resolves-objects", "commit auto-resolves conflicts of ordinary objects", c.loc())
